@@ -1,6 +1,9 @@
 #!/bin/sh
 # regenerate Makefile from _CoqProject + every .v under theories/, then build targets ($@ or all)
 cd "$(dirname "$0")" || exit 2
+mkdir -p ../build
+exec 9>../build/.mklock
+flock 9
 find theories -name '*.v' | LC_ALL=C sort > .files.tmp
 if ! cmp -s .files.tmp .files 2>/dev/null || [ ! -f Makefile ]; then
   mv .files.tmp .files
